@@ -355,9 +355,19 @@ func (p plainCache) Exists(key string) (bool, error)                { return p.d
 func (p plainCache) Close() error                                   { return nil }
 
 type persDouble struct {
-	mu sync.Mutex
-	m  map[string]any
-	s  *sched
+	mu   sync.Mutex
+	m    map[string]any
+	s    *sched
+	json bool // store lists as JSON text, like the remote / database tier (and Redis) do: Get returns a string, GetList decodes it
+}
+
+// toStored: the form in which a JSON-text tier keeps a list
+func toStored(v any) any {
+	if l, ok := v.([]interface{}); ok {
+		b, _ := json.Marshal(l)
+		return string(b)
+	}
+	return v
 }
 
 func (p *persDouble) Set(key string, v any) error {
@@ -368,6 +378,9 @@ func (p *persDouble) Set(key string, v any) error {
 	}
 	p.mu.Lock()
 	defer p.mu.Unlock()
+	if p.json {
+		v = toStored(v)
+	}
 	p.m[key] = cp(v)
 	return nil
 }
@@ -441,6 +454,12 @@ func lval(l []int) any {
 func encVal(x any) []any {
 	switch v := x.(type) {
 	case string:
+		if strings.HasPrefix(v, "[") { // a list kept as JSON text
+			var l []interface{}
+			if json.Unmarshal([]byte(v), &l) == nil {
+				return encVal(l)
+			}
+		}
 		if strings.HasPrefix(v, "v") {
 			if n, err := strconv.Atoi(v[1:]); err == nil {
 				return []any{0, n}
@@ -496,6 +515,7 @@ type caseIn struct {
 	Sched   []int    `json:"sched"`
 	MaxWb   int      `json:"max_wb"`
 	Reader  bool     `json:"reader"` // the last caller only runs once everything else (write-backs included) has quiesced
+	JSONP   bool     `json:"jsonp"`  // the persistent tier (and seeded cache entries) hold lists as JSON text
 	Plain   bool     `json:"plain"`  // cache tiers without SetNX / IncrBy: the facade's fallback read-modify-writes run
 	Raw     bool     `json:"raw"`    // cache tiers hand lists through by reference (the real memory.Storage behaviour)
 	Locks   string   `json:"locks"`  // "" pinned code; "wb" key lock + synchronous cache fill; "wb+list" list operations hold it too
@@ -552,7 +572,7 @@ func newRig(c caseIn, s *sched) *rig {
 	}
 	var ps types.PersistentStorage
 	if c.Pers {
-		r.pers = &persDouble{m: map[string]any{}, s: s}
+		r.pers = &persDouble{m: map[string]any{}, s: s, json: c.JSONP}
 		ps = r.pers
 	}
 	var lc types.CacheStorage = &cacheDouble{under: r.local, tier: tLocal, s: s, raw: c.Raw}
@@ -575,6 +595,9 @@ func (r *rig) seed(c caseIn) {
 			v = sval(*in.V)
 		default:
 			continue
+		}
+		if c.JSONP {
+			v = toStored(v)
 		}
 		key := c.Keys[in.K]
 		switch in.Tier {
@@ -675,6 +698,12 @@ func doOpV(h *hybrid.Storage, keys []string, op opIn) ([]any, any) {
 			return resErr(err), nil
 		}
 		return []any{3, encVal(v)}, v
+	case "getlist": // the list reader of the facade (decodes JSON text)
+		l, err := h.GetList(key)
+		if err != nil {
+			return resErr(err), nil
+		}
+		return []any{3, encVal(l)}, l
 	case "del":
 		return resErr(h.Delete(key)), nil
 	case "exists":
@@ -961,7 +990,7 @@ func runSched(c caseIn) *caseOut {
 			return true
 		case "append", "remove":
 			return c.Locks == "wb+list" || rec.First >= 0
-		case "get":
+		case "get", "getlist":
 			return rec.First >= 0
 		}
 		return false
@@ -1274,7 +1303,7 @@ func aliasPreds(c caseIn, out *caseOut, all []*opRec, kind func(int) string) []v
 			}
 		}
 		for _, o := range all {
-			if o.K == k && o.Op == "get" && int(toInt(o.Res[0])) == 3 {
+			if o.K == k && (o.Op == "get" || o.Op == "getlist") && int(toInt(o.Res[0])) == 3 {
 				check(fmt.Sprintf("the list returned by Get at step %d", o.Last), o.Res[1])
 			}
 		}
@@ -1328,15 +1357,15 @@ func staleReads(c caseIn, k int, all []*opRec, init string) []viol {
 	}
 	var out []viol
 	for _, g := range all {
-		if g.K != k || g.First < 0 || (g.Op != "get" && g.Op != "exists") {
+		if g.K != k || g.First < 0 || (g.Op != "get" && g.Op != "getlist" && g.Op != "exists") {
 			continue
 		}
 		code := int(toInt(g.Res[0]))
 		var obs string
 		switch {
-		case g.Op == "get" && code == 3:
+		case g.Op != "exists" && code == 3:
 			obs = canon(g.Res[1])
-		case g.Op == "get" && code == 2:
+		case g.Op != "exists" && code == 2:
 			obs = "none"
 		case g.Op == "exists" && code == 4:
 			obs = fmt.Sprint(g.Res[1])
